@@ -348,10 +348,15 @@ func (t *ImmutableTree) getRangeProof(keyStart, keyEnd []byte, limit int) (proof
 
 	// 1: Special case if limit is 1.
 	// 2: Special case if keyEnd is left.key+1.
+	// 3: Special case if left.key is the greatest possible key: nothing follows it.
+	// Get the key after left.key to iterate from (nil if there is none).
+	afterLeft := cpIncr(left.key)
 	_stop := false
 	if limit == 1 {
 		_stop = true // case 1
-	} else if keyEnd != nil && bytes.Compare(cpIncr(left.key), keyEnd) >= 0 {
+	} else if afterLeft == nil {
+		_stop = true // case 3
+	} else if keyEnd != nil && bytes.Compare(afterLeft, keyEnd) >= 0 {
 		_stop = true // case 2
 	}
 	if _stop {
@@ -360,9 +365,6 @@ func (t *ImmutableTree) getRangeProof(keyStart, keyEnd []byte, limit int) (proof
 			Leaves:   leaves,
 		}, keys, values, nil
 	}
-
-	// Get the key after left.key to iterate from.
-	afterLeft := cpIncr(left.key)
 
 	// Traverse starting from afterLeft, until keyEnd or the next leaf
 	// after keyEnd.
